@@ -4,7 +4,7 @@ CONSTANTS
   MinSize = 0
   MaxSize = 3
   Emit = TRUE
-  Fixed = FALSE
+  Fixed = TRUE
 VIEW View
 INVARIANTS OkOrKF PosAgree
 CHECK_DEADLOCK FALSE
